@@ -25,7 +25,7 @@ from dataclasses import dataclass, field
 from ..cfg import CFG, cfg_of
 from ..exc import EscapeAnalysis, ExcModel
 from ..loader import AnalysisError, ClassInfo, FunctionInfo, Module, Repo, walk_scope
-from ..resolve import Resolver, last_attr
+from ..resolve import Resolver
 
 
 def txt(e: ast.AST) -> str:
